@@ -1,0 +1,72 @@
+//go:build verif
+
+package ddperror
+
+import (
+	"runtime"
+	"strings"
+	"sync"
+
+	"github.com/DDP-Projekt/Kompilierer/src/token"
+)
+
+// With the build tag verif every Error created through New remembers which functions
+// created it (innermost first, reporting helpers skipped), so that external tooling can
+// name the call site of a diagnostic.
+
+type verifSiteKey struct {
+	code Code
+	rng  token.Range
+	msg  string
+}
+
+var (
+	verifSiteMu sync.Mutex
+	verifSites  = map[verifSiteKey]string{}
+)
+
+var verifSkip = map[string]bool{"New": true, "err": true, "errVal": true, "warn": true, "errorHandler": true, "verifRecordSite": true}
+
+func verifRecordSite(code Code, rng token.Range, msg string) {
+	pcs := make([]uintptr, 16)
+	n := runtime.Callers(2, pcs)
+	frames := runtime.CallersFrames(pcs[:n])
+	var names []string
+	for len(names) < 3 {
+		f, more := frames.Next()
+		fn := f.Function
+		if i := strings.LastIndex(fn, "/"); i >= 0 {
+			fn = fn[i+1:]
+		}
+		short := fn
+		if i := strings.LastIndex(short, "."); i >= 0 {
+			short = short[i+1:]
+		}
+		if !verifSkip[short] && !strings.HasPrefix(short, "func") && fn != "" {
+			names = append(names, fn)
+		}
+		if !more {
+			break
+		}
+	}
+	verifSiteMu.Lock()
+	if len(verifSites) > 1<<16 {
+		verifSites = map[verifSiteKey]string{}
+	}
+	verifSites[verifSiteKey{code, rng, msg}] = strings.Join(names, "<")
+	verifSiteMu.Unlock()
+}
+
+// VerifSiteOf returns the recorded creation site of err ("" if unknown).
+func VerifSiteOf(err Error) string {
+	verifSiteMu.Lock()
+	defer verifSiteMu.Unlock()
+	return verifSites[verifSiteKey{err.Code, err.Range, err.Msg}]
+}
+
+// VerifResetSites forgets all recorded sites.
+func VerifResetSites() {
+	verifSiteMu.Lock()
+	verifSites = map[verifSiteKey]string{}
+	verifSiteMu.Unlock()
+}
